@@ -361,19 +361,33 @@ theorem coerceArgs_num3 (t1 t2 t3 : Nat) (x y z : Num) :
 theorem truthy_int_ite (p : Prop) [Decidable p] : truthy (.int (if p then 1 else 0)) = decide p := by
   by_cases h : p <;> simp [h] <;> decide
 
-/-- the `while` loop of `ka_range` through `dispatch` is the array model's loop on exact rationals -/
-theorem kaRangeLoop_eq (n : Nat) (hi step : Rat) (f : Nat) (c : Rat) (racc : List Rat) :
+theorem isExact_canon (q : Rat) : (canon q).isExact = true := by unfold canon; split <;> rfl
+
+/-- the no-progress guard of `ka_range` on exact operands: `curr < curr + step` -/
+theorem rnum_lt_canon (n : Nat) (a b : Rat) :
+    rnum (fun nm as => dispatchV (n + 1) nm as []) "<" [canon a, canon b] = .ok (.int (if a < b then 1 else 0)) := by
+  rw [rnum_lt]
+  simp [cmpLt, toRat_canon]
+
+/-- the `while` loop of `ka_range` through `dispatch` is the array model's loop on exact rationals: with a
+    positive step the no-progress guard `curr < curr + step` (fix efcc27a) always passes — every `+` on exact
+    operands is exact —, which is why `Arr.rangeLoop` has no such guard.  When the round bound is reached the
+    evaluator declines (`unmodelled "huge range"`); it never answers `diverges`. -/
+theorem kaRangeLoop_eq (n : Nat) (hi step : Rat) (hs : 0 < step) (f : Nat) (c : Rat) (racc : List Rat) :
     kaRangeLoop (fun nm as => dispatchV (n + 1) nm as []) (canon hi) (canon step) f (canon c)
         (racc.map (fun q => Val.num (canon q))) =
       match Arr.rangeLoop hi step f c racc with
       | some xs => .ok (.arr (xs.map (fun q => Val.num (canon q))))
-      | none => raise .diverges := by
+      | none => .error (.unmodelled "huge range") := by
   induction f generalizing c racc with
   | zero => rfl
   | succ f ih =>
     simp only [kaRangeLoop, Arr.rangeLoop, rnum_le_canon, bind, Except.bind, truthy_int_ite]
     by_cases h : c ≤ hi
-    · simp only [h, decide_true, if_true, rnum_add_canon]
+    · have hlt : c < c + step := by linarith
+      have ht : truthy (.int 1) = true := by decide
+      simp only [h, decide_true, if_true, rnum_add_canon, rnum_lt_canon, hlt, ht, Bool.not_true,
+        Bool.false_eq_true, if_false]
       exact ih (c + step) (c :: racc)
     · simp only [h, decide_false, Bool.false_eq_true, if_false, List.map_reverse]
 
@@ -389,9 +403,13 @@ theorem rangeLoop_mono (hi step : Rat) (f : Nat) (c : Rat) (acc xs : List Rat)
 
 /-- **`range(lo, hi, step)` inside the unified evaluator is `Arr.kaRange`** on exact operands: the
     positive-step and `lo ≤ hi` guards (FunctionArgError otherwise — never a hang, C12_range_step_reject),
-    then the `while curr <= hi` loop through `dispatch`, which yields exactly the array model's list
-    `lo, lo+step, …` not exceeding `hi` (C12_range_step), each element delivered canonically.  Side
-    condition: the element count stays below `Eval.maxRange` (2 000 000), beyond which the model declines. -/
+    then the `while curr <= hi` loop through `dispatch` — INCLUDING the no-progress guard
+    `if not dispatch("<", (curr, nxt)): raise FunctionArgError` of fix efcc27a, which on exact operands never
+    fires (`kaRangeLoop_eq`) —, which yields exactly the array model's list `lo, lo+step, …` not exceeding `hi`
+    (C12_range_step), each element delivered canonically.  The array fragment `Arr.kaRange` therefore needs no
+    guard of its own.  Side condition: the element count stays below `Eval.maxRange` (2 000 000), beyond which
+    the model declines.  (Statement unchanged by the model change; the round bound the evaluator uses for exact
+    operands, `⌊(hi−lo)/step⌋ + 3`, is shown here never to be reached.) -/
 theorem PIPE_range_step (lo hi step : Rat)
     (hsz : 0 < step → lo ≤ hi → ((hi - lo) / step).floor.toNat + 3 ≤ maxRange) :
     dispatchTop "range" [.num (canon lo), .num (canon hi), .num (canon step)] [] =
@@ -401,7 +419,7 @@ theorem PIPE_range_step (lo hi step : Rat)
   have t := kaRange_table _ (numClass_canon lo) _ (numClass_canon hi) _ (numClass_canon step)
   rw [dispatchTop, dispatchFuel,
     dispatchV_step (c := chP [tNum, tNum, tNum] _ .kaRange) (code := .kaRange) (by simpa [classOf] using t) rfl]
-  simp only [chP, coerceArgs_num3, BodyCode.run, bKaRange, bind, Except.bind,
+  simp only [chP, coerceArgs_num3, BodyCode.run, bKaRange, kaRangeFuel, isExact_canon, Bool.and_self, if_true, bind, Except.bind,
     rnum_lt_zero_canon, rnum_le_canon, truthy_int_ite, toRat_canon]
   by_cases hs : 0 < step
   · by_cases hl : lo ≤ hi
@@ -409,7 +427,7 @@ theorem PIPE_range_step (lo hi step : Rat)
       have hk := C12_range_step lo hi step hs hl
       have hng : ¬ ((hi - lo) / step).floor.toNat + 3 > maxRange := Nat.not_lt.mpr hn
       simp only [hs, hl, decide_true, Bool.not_true, Bool.false_eq_true, if_false, hng]
-      have hloop := kaRangeLoop_eq 8 hi step (((hi - lo) / step).floor.toNat + 3) lo []
+      have hloop := kaRangeLoop_eq 8 hi step hs (((hi - lo) / step).floor.toNat + 3) lo []
       simp only [List.map_nil] at hloop
       rw [hloop]
       rw [hk]
